@@ -374,8 +374,8 @@ theorem entryStep_inv (style : List Char) {base : Nat} {all : List (List Char)} 
         simp only [Option.some.injEq] at hp'
         subst hp'
         exact h3 p hp
-      · refine PInv.addErr (st := { st with pending := none }) ⟨h.1, h.2.1, fun p hp => by cases hp⟩ _
-          (spanOK_of_line hb hl _ _ _ (Int.le_refl _) (by omega) (by omega)) rfl rfl rfl
+      · exact PInv.addErr (st := st.commit) h.commit.1 _
+          (spanOK_of_line hb hl _ _ _ (Int.le_refl _) (by omega) (by omega)) rfl rfl h.commit.2
     · exact hmain
 theorem entriesGo_inv (style : List Char) (base : Nat) (all : List (List Char)) :
     ∀ (ls pre : List (List Char)) (st : PState), all = pre ++ ls → PInv base all (base + pre.length) st →
